@@ -217,7 +217,8 @@ class ModelCacheMixin:
     def split(self):
         results = super().split()
         for r in results:
-            r._models = {m.filter(r.variables) for m in self._models}
+            # r may already hold a model (and exhausted marks relying on it) from adding its constraints: keep it
+            r._models.update(m.filter(r.variables) for m in self._models)
         return results
 
     def combine(self, others):
